@@ -130,6 +130,7 @@ var dioAvailable, _ = recordio.IsDirectIOAvailable()
 
 func randDbOpts(r *rand.Rand) dbOpts {
 	o := randDbOpts0(r)
+	o.EarlyClose = r.Intn(5) == 0
 	switch r.Intn(8) {
 	case 0:
 		o.AsyncWAL = true
@@ -153,6 +154,7 @@ func randDbOpts0(r *rand.Rand) dbOpts {
 
 func genDbProgram(r *rand.Rand, nsteps int, keys [][]byte) []dbStep {
 	var steps []dbStep
+	written := map[string][][]byte{}
 	for j := 0; j < nsteps; j++ {
 		k := keys[r.Intn(len(keys))]
 		switch x := r.Intn(20); {
@@ -168,6 +170,10 @@ func genDbProgram(r *rand.Rand, nsteps int, keys [][]byte) []dbStep {
 			if r.Intn(3) == 0 {
 				op = "putb"
 			}
+			if prev := written[string(k)]; len(prev) > 0 && r.Intn(4) == 0 {
+				v = prev[r.Intn(len(prev))] // the same bytes as an earlier put of this key
+			}
+			written[string(k)] = append(written[string(k)], v)
 			steps = append(steps, dbStep{Op: op, K: k, V: v})
 		case x < 12:
 			op := "del"
